@@ -1793,16 +1793,80 @@ func rulePADCUT(w *World, r *Report) {
 	}
 	// the cut: a Slice of bs with Low = start; High is a phi / value e
 	var cut *ssa.Slice
+	ncut := 0
 	for _, b := range fn.Blocks {
 		for _, in := range b.Instrs {
 			if sl, ok := in.(*ssa.Slice); ok && stripAllConv(sl.X) == bs && sl.Low != nil && stripAllConv(sl.Low) == start {
-				if cut != nil {
-					r.unk("PADCUT", "sliceAndPadByteArray:cut", w.ipos(sl), "more than one cut of the input")
-					return
-				}
+				ncut++
 				cut = sl
 			}
 		}
+	}
+	if ncut > 1 {
+		// several cuts (an early return for the unpadded case): judge what each return hands out -
+		// bs[start:e], or append(bs[start:e], make([]byte, p)...) - with e + p = end
+		var leaves []ssa.Value
+		seen := map[ssa.Value]bool{}
+		var collect func(v ssa.Value)
+		collect = func(v ssa.Value) {
+			v = stripAllConv(v)
+			if seen[v] {
+				return
+			}
+			seen[v] = true
+			if ph, ok := v.(*ssa.Phi); ok {
+				for _, e := range ph.Edges {
+					collect(e)
+				}
+				return
+			}
+			leaves = append(leaves, v)
+		}
+		for _, b := range fn.Blocks {
+			if ret, ok := b.Instrs[len(b.Instrs)-1].(*ssa.Return); ok && len(ret.Results) == 1 {
+				collect(ret.Results[0])
+			}
+		}
+		for i, lf := range leaves {
+			key := fmt.Sprintf("sliceAndPadByteArray:case#%d", i)
+			var sl *ssa.Slice
+			var pad ssa.Value
+			switch x := lf.(type) {
+			case *ssa.Slice:
+				sl = x
+			case *ssa.Call:
+				if ap := isBuiltinCall(x, "append"); ap != nil && len(ap.Call.Args) == 2 {
+					sl, _ = stripAllConv(ap.Call.Args[0]).(*ssa.Slice)
+					if mk, ok := stripAllConv(ap.Call.Args[1]).(*ssa.MakeSlice); ok {
+						pad = mk.Len
+					}
+				}
+			}
+			if sl == nil || stripAllConv(sl.X) != bs || sl.Low == nil || stripAllConv(sl.Low) != start || sl.High == nil {
+				r.unk("PADCUT", key, w.pos(fn.Pos()), "a return value is neither bs[start:e] nor append(bs[start:e], make(p)...)")
+				continue
+			}
+			if _, isPhi := stripAllConv(sl.High).(*ssa.Phi); isPhi {
+				r.unk("PADCUT", key, w.ipos(sl), "the cut's end is merged from several values in a shape with several cuts")
+				continue
+			}
+			sum := &linSum{coef: map[string]int64{}, val: map[string]ssa.Value{}}
+			sum.add(linOf(w, sl.High, 0), 1)
+			if pad != nil {
+				if _, isPhi := stripAllConv(pad).(*ssa.Phi); isPhi {
+					r.unk("PADCUT", key, w.ipos(sl), "the padding length is merged from several values in a shape with several cuts")
+					continue
+				}
+				sum.add(linOf(w, pad, 0), 1)
+			}
+			if sum.equal(linOf(w, end, 0)) {
+				r.ok("PADCUT", key, w.ipos(sl), "cut end + padding = end")
+			} else {
+				r.bad("PADCUT", key, w.ipos(sl), "the cut's end plus the padding length is not the requested end: the padded slice is not end-start bytes long (or is padded by an amount that is only right at aligned offsets)")
+			}
+		}
+		r.floor("PADCUT", "cases of sliceAndPadByteArray", len(leaves), 1)
+		return
 	}
 	if cut == nil || cut.High == nil {
 		r.unk("PADCUT", "sliceAndPadByteArray:cut", w.pos(fn.Pos()), "no cut bs[start:e] found")
